@@ -53,6 +53,36 @@ def handle (args : List String) : Option String :=
         | none => "err"
         | some pv => showOB (some (Spec.satisfies p.dep x pv))
     some <| triple impl spec (if bigField tv || bigField p.version then "F03a" else "unlisted")
+  | ["v.res2", c, v] =>
+    -- several candidates / an already selected candidate (see vResolveTwins in the harness): two providers with one
+    -- package version provide the name at the candidate version and at the REQUIRED version: the dependency resolves
+    -- iff the constraint accepts one of the two; an already selected candidate is accepted iff the constraint accepts it
+    let p := parseConstraint (unhexS c)
+    let tv := unhexS v
+    let prov (t : Text) : Text := (parseConstraint (p.name ++ ['='] ++ t)).version
+    let okOf (s : String) : String := if s == "true" then "ok" else "err"
+    let implOn (t : Text) : String := match Impl.parseVersion t with
+      | none => "err"
+      | some x => okOf (showOB (p.satisfiedBy Impl.parseVersion x))
+    let specOn (t : Text) : String := match Spec.parseVersion t with
+      | none => "err"
+      | some x =>
+        match Spec.parseVersion p.version with
+        | none => "err"
+        | some pv => okOf (showOB (some (Spec.satisfies p.dep x pv)))
+    let either (a b : String) : String := if a == "ok" || b == "ok" then "ok" else "err"
+    -- candidates accepted by ResolvePackage among the twins (ids in listing order), "err" when none
+    let cands (a b : String) : String :=
+      match a == "ok", b == "ok" with
+      | true, true => "ok 0,1" | true, false => "ok 0" | false, true => "ok 1" | false, false => "err"
+    -- (filterPackages looks at the candidate's OWN package version first — the twins' is 1.0-r0 — and at its provided
+    -- versions only when that fails; on the full resolution path constrain() has already removed such candidates)
+    let own : Text := "1.0-r0".toList
+    let fmt (o pv pr s : String) : String :=
+      s!"t={either pv pr},{either pv pr};s={s};c={cands (either o pv) (either o pr)}/{cands (either o pr) (either o pv)}"
+    some <| triple (fmt (implOn own) (implOn (prov tv)) (implOn (prov p.version)) (implOn tv))
+      (fmt (specOn own) (specOn (prov tv)) (specOn (prov p.version)) (specOn tv))
+      (if bigField tv || bigField p.version then "F03a" else "unlisted")
   | ["v.res", c, v] =>
     -- the resolver accepts the only candidate iff the constraint accepts its version. Three universes (see the
     -- harness): a world entry, a dependency on the name, a dependency on a name the candidate PROVIDES as `n=v`
